@@ -23,7 +23,7 @@ RULE = ("case = (client stack: Client / PooledClient / HashClient with 1-3 serve
         "healthy empty server gives `miss`, on a healthy server holding the keys gives `hit`; under the failure the "
         "call must not raise and must return miss - same shape, the same default objects by identity - or, when the "
         "fault turned out harmless, the genuine hit; afterwards (clock advanced past two dead_timeouts) set+get on the "
-        "same read call, repeated with no other traffic in between, returns the genuine hit (the items were on the servers all along) and set+get on the same object work. Non-trivial: the fault fired (from the log) and the method is not plain get.")
+        "same-shaped call on another client object, made after the first caller filled in the (empty) dict it was handed, still returns a clean miss; the same read call, repeated with no other traffic in between, returns the genuine hit (the items were on the servers all along) and set+get on the same object work. Non-trivial: the fault fired (from the log) and the method is not plain get.")
 MANIFEST = {
     "category": "fault_enumeration",
     "technique": "systematic enumeration of (read method x client stack x argument shape x every fault position/kind of a dry run) with a differential oracle: the failing call's result must be identical (by identity of the default objects) to the same call's miss result, or be the genuine hit",
@@ -152,6 +152,22 @@ def check(case):
             if not (ftype in ("fault", "faults") and _equal_hit(got, hit)):
                 raise Violation(["shape", kind, call["op"]], "returned %s, a miss returns %s (hit would be %s): %s"
                                 % (_show(got, D, C), _show(miss, D, C), _show(hit, D, C), desc))
+        # 2b. what a failed multi-key read returns belongs to the caller: filling it in (the cache-aside step) must not
+        #     show in what another failing call - on another client object - returns
+        if isinstance(got, dict) and not got and ftype in ("down", "all-dead", "retry-window"):
+            got["filled-in-by-the-caller"] = b"from the database"
+            env2, c2 = setup(case, True, serde_mode)
+            with virtual_time(env2.clock):
+                for srv in env2.servers:
+                    srv.down = failure.get("what", "refused")
+                if ftype in ("retry-window", "all-dead"):
+                    for k in ["t", "n", "zz", "q", "a", "b", "c", "d", "e", "f"]:
+                        env2.call(c2.get, k)
+                r2 = env2.call(build_call(c2, call, D, C))
+            if r2[0] != "ok" or not same_miss(r2[1], miss):
+                raise Violation(["miss-container-shared", kind, call["op"]], "a second client's failing call returned %r after the first caller had filled in the dict it was given; a miss is %r: %s"
+                                % (r2[1], miss, desc))
+            del got["filled-in-by-the-caller"]
         # 3a. the very call that was answered with a miss finds the items again once the servers are back (they were on
         #     the servers all along), with no other traffic in between: repeating it is all an application does
         for srv in env.servers:
